@@ -296,6 +296,15 @@ def failSlots (s : State) (cid : Nat) (dead : Slot → Bool) (err : Err) : State
            entries := updIn s.entries (gone.map (·.h)) (·.fail err),
            clients := updClient s.clients cid fun c => { c with sent := c.sent - gone.length } }
 
+/-- the loop of `send` that publishes the group: `entry.requestID.Store`, `batched.Store`, `sent.Add(1)` -/
+def track (s : State) (cid fwd gen : Nat) : State :=
+  let grp := s.built.filter (·.fwd = fwd)
+  { s with
+    built := s.built.filter (¬ ·.fwd = fwd),
+    table := s.table ++ grp.map (fun it => { cid := cid, id := it.id, h := it.h, fwd := fwd, gen := gen }),
+    entries := s.entries.mapIdx (fun i e => match grp.find? (·.h = i) with | some it => { e with reqId := it.id } | none => e),
+    clients := updClient s.clients cid fun c => { c with sent := c.sent + grp.length } }
+
 /-- `batchCommandsClient.send(forwardedHost, group)` for the items of `built` with this forwarded host -/
 def sendGroup (s : State) (cid fwd : Nat) : State :=
   let grp := s.built.filter (·.fwd = fwd)
@@ -304,11 +313,7 @@ def sendGroup (s : State) (cid fwd : Nat) : State :=
   let st := findStream s.streams cid fwd
   let gen := match st with | some x => x.gen | none => 0
   let sf := match st with | some x => x.sendFail | none => false
-  let s := { s with
-    built := s.built.filter (¬ ·.fwd = fwd),
-    table := s.table ++ grp.map (fun it => { cid := cid, id := it.id, h := it.h, fwd := fwd, gen := gen }),
-    entries := s.entries.mapIdx (fun i e => match grp.find? (·.h = i) with | some it => { e with reqId := it.id } | none => e),
-    clients := updClient s.clients cid fun c => { c with sent := c.sent + grp.length } }
+  let s := track s cid fwd gen
   if sf then failSlots s cid (fun sl => (grp.map (·.id)).contains sl.id) .sendfail
   else { s with wireLog := (grp.map fun it => (it.id, match s.entries[it.h]? with | some e => e.payload | none => 0)).reverse ++ s.wireLog }
 
@@ -422,7 +427,7 @@ def submit (s : State) (payload pri fwd : Nat) : State :=
     { s with entries := s.entries ++ [{ payload := payload, pri := pri, fwd := f }], ch := s.ch ++ [s.entries.length] }
 
 def closeAll (s : State) : State :=
-  { s with closed := true, entries := s.entries.map (·.abandon .closed) }
+  { s with closed := true, entries := s.entries.mapIdx fun _ e => e.abandon .closed }
 
 def step (s : State) : Op → State
   | .submit p pri fwd => submit s p pri fwd
